@@ -40,8 +40,8 @@ func c01Build(tag string, leaves []T, nodes []c01Node, K int) ([]T, []c01Node) {
 		b := a
 		if op != 0 && op != 5 {
 			b = vrt.Concretize(vrt.Int(vrt.Nm(tag+"b", s), 0, n-1))
-			if op == 1 || op == 3 {
-				vrt.Assume(a <= b) // commutative: one operand order is enough
+			if (op == 1 || op == 3) && vrt.Param("ops") == 1 {
+				vrt.Assume(a <= b) // longest programs only: one operand order of the commutative ops
 			}
 		}
 		nd := c01Node{op: op, a: a, b: b, val: make([]float64, c01Width)}
